@@ -17,7 +17,8 @@ VX int v_roundtrip(const int *h, int *out) {
 }
 
 // mode: 0 fresh object, 1 copy-constructed, 2 assigned, 3 getString called twice (second answer),
-//       4 result of XOR with h2, 5 after getFullString, 6 via hash_t(const int*) then operator^=
+//       4 result of XOR with h2, 5 after getFullString, 6 via hash_t(const int*) then operator^=,
+//       7 a ^= x with x's short string cached, 8 c = a ^ x (assignment) with x cached, 9 copies and assignments around ^= with both cached
 VX int v_short(const int *h, const int *h2, int mode, char *full, char *sh) {
   try {
     occa::hash_t a(h);
@@ -30,7 +31,11 @@ VX int v_short(const int *h, const int *h2, int mode, char *full, char *sh) {
     case 3: { (void) a.getString(); f = a.getFullString(); s = a.getString(); break; }
     case 4: { occa::hash_t x(h2); occa::hash_t c = a ^ x; f = c.getFullString(); s = c.getString(); break; }
     case 5: { f = a.getFullString(); f = a.getFullString(); s = a.getString(); break; }
-    default: { occa::hash_t x(h2); (void) a.getString(); a ^= x; f = a.getFullString(); s = a.getString(); break; }
+    case 6: { occa::hash_t x(h2); (void) a.getString(); a ^= x; f = a.getFullString(); s = a.getString(); break; }
+    // the RIGHT operand has its short string cached before the combination, and the result goes through an assignment
+    case 7: { occa::hash_t x(h2); (void) x.getString(); a ^= x; f = a.getFullString(); s = a.getString(); break; }
+    case 8: { occa::hash_t x(h2); (void) x.getString(); occa::hash_t c; c = a ^ x; f = c.getFullString(); s = c.getString(); break; }
+    default: { occa::hash_t x(h2); (void) x.getString(); (void) a.getString(); occa::hash_t c(x); c = a; c ^= x; occa::hash_t d(c); f = d.getFullString(); s = d.getString(); break; }
     }
     for (size_t i = 0; i < f.size() && i < 80; i++) full[i] = f[i];
     for (size_t i = 0; i < s.size() && i < 80; i++) sh[i] = s[i];
